@@ -88,6 +88,12 @@ pub struct BuildResult {
     pub reported_regenerated: Option<bool>,
     #[serde(default)]
     pub lex_dump: Option<String>,
+    /// short writes injected (fsize_mode "short")
+    #[serde(default)]
+    pub short_writes: u64,
+    /// `cargo:rerun-if-changed=` paths the builders printed (filled in by the parent)
+    #[serde(default)]
+    pub rerun_if_changed: Vec<String>,
 }
 
 pub fn yacckind_of(s: &str) -> Option<YaccKind> {
@@ -143,7 +149,10 @@ pub fn main(spec_path: &str, result_path: &str) -> i32 {
     let spec: BuildSpec = serde_json::from_str(&std::fs::read_to_string(spec_path).expect("spec")).expect("spec json");
     // Before anything that might create a RandomState.
     crate::seams::install_entropy(spec.hash_seed);
-    if let Some(lim) = spec.fsize_limit {
+    if let (Some(lim), Some("short")) = (spec.fsize_limit, spec.fsize_mode.as_deref()) {
+        // one short write (no error) at byte `lim` of the first larger write to a file
+        crate::seams::SHORT_WRITE_AT.store(lim as i64, std::sync::atomic::Ordering::SeqCst);
+    } else if let Some(lim) = spec.fsize_limit {
         unsafe {
             if spec.fsize_mode.as_deref() == Some("error") {
                 libc::signal(libc::SIGXFSZ, libc::SIG_IGN);
@@ -155,6 +164,10 @@ pub fn main(spec_path: &str, result_path: &str) -> i32 {
         }
     }
     std::panic::set_hook(Box::new(|_| {}));
+    // a build script always runs with OUT_DIR set
+    if let Some(d) = &spec.token_map_dir {
+        std::env::set_var("OUT_DIR", d);
+    }
     for pre in &spec.prelude {
         let pre = pre.clone();
         let _ = std::panic::catch_unwind(move || {
@@ -171,12 +184,15 @@ pub fn main(spec_path: &str, result_path: &str) -> i32 {
         libc::signal(libc::SIGXFSZ, libc::SIG_IGN);
     }
     let res = match r {
-        Ok(Ok((regen, rep))) => BuildResult { ok: true, error: String::new(), panicked: false, regenerated: Some(regen), reported_regenerated: rep, lex_dump },
-        Ok(Err(e)) => BuildResult { ok: false, error: e, panicked: false, regenerated: None, reported_regenerated: None, lex_dump },
-        Err(_) => BuildResult { ok: false, error: "builder panicked".into(), panicked: true, regenerated: None, reported_regenerated: None, lex_dump },
+        Ok(Ok((regen, rep))) => BuildResult { ok: true, error: String::new(), panicked: false, regenerated: Some(regen), reported_regenerated: rep, lex_dump, short_writes: 0, rerun_if_changed: vec![] },
+        Ok(Err(e)) => BuildResult { ok: false, error: e, panicked: false, regenerated: None, reported_regenerated: None, lex_dump, short_writes: 0, rerun_if_changed: vec![] },
+        Err(_) => BuildResult { ok: false, error: "builder panicked".into(), panicked: true, regenerated: None, reported_regenerated: None, lex_dump, short_writes: 0, rerun_if_changed: vec![] },
     };
     // The result travels through stdout: a pipe is not subject to RLIMIT_FSIZE.
     let _ = result_path;
+    let mut res = res;
+    res.short_writes = crate::seams::SHORT_WRITES_FIRED.load(std::sync::atomic::Ordering::SeqCst);
+    crate::seams::SHORT_WRITE_AT.store(-1, std::sync::atomic::Ordering::SeqCst);
     let js = serde_json::to_string(&res).unwrap();
     println!("BUILD-RESULT {js}");
     0
@@ -353,8 +369,9 @@ fn run(spec: &BuildSpec) -> Result<(bool, Option<bool>), String> {
     if let Some(dir) = &spec.token_map_dir {
         // Token map from the grammar's own token numbering.
         let src = std::fs::read_to_string(&spec.grammar_path).map_err(|e| e.to_string())?;
-        let kind = spec.parser.yacckind.as_deref().and_then(yacckind_of).unwrap_or(YaccKind::Grmtools);
-        if let Ok(grm) = cfgrammar::yacc::YaccGrammar::<u32>::new_with_storaget(kind, &src) {
+        // the kind may come from the grammar's own header: take the first one that parses
+        let kinds = [spec.parser.yacckind.as_deref().and_then(yacckind_of).unwrap_or(YaccKind::Grmtools), YaccKind::Grmtools, YaccKind::Original(YaccOriginalActionKind::NoAction)];
+        if let Some(grm) = kinds.iter().find_map(|k| cfgrammar::yacc::YaccGrammar::<u32>::new_with_storaget(*k, &src).ok()) {
             let map: std::collections::HashMap<String, u32> = grm.tokens_map().iter().map(|(k, v)| (k.to_string(), v.0)).collect();
             std::env::set_var("OUT_DIR", dir);
             let rename: Vec<(String, String)> = map.keys().enumerate().filter(|(_, k)| !k.chars().all(|c| c.is_ascii_alphanumeric() || c == '_')).map(|(i, k)| (k.clone(), format!("SYM{}", {
